@@ -44,4 +44,12 @@ def run(S):
     _docs = _rp.PROSE_LINE_DOCS + deep.PROSE + _rp.EVAL_DOCS
     _fr, _covr = _rp.explore(S, _docs, tabs=(2,) if S.tier == 'quick' else (2, 4), widths=(0, 15, 40, 1 << 30) if S.tier == 'quick' else (0, 10, 15, 20, 30, 40, 80, 1 << 30), prop='C08')
     _rp.report(S, 'C08', _fr)
+    # generated families (construct x spelling x context x comment position, ~4000 well-formed documents): a sample that depends on VERIF_SEED in the
+    # quick tier, all of them in the thorough tier
+    from . import reparse as _rpf
+    _fam = _rpf.families(S, seed=S.seed, limit=300 if S.tier == 'quick' else None)
+    if 'C08' == 'C09':
+        _fam = [d_ for d_ in _fam if '$' in d_]
+    _ff, _covf = _rpf.explore(S, _fam, tabs=(2,), widths=(0, 1 << 30) if S.tier == 'quick' else (0, 20, 40, 80, 1 << 30), prop='C08')
+    _rpf.report(S, 'C08', _ff)
     return S.finish(level='other', explanation=EXPLANATION, trusted=['mirsym encoder', 'typst-syntax kind tables', 'pretty Doc algebra contracts'])
